@@ -346,6 +346,11 @@ func bytesHaveSchemaLink(br blob.Ref, bb []byte, target blob.Ref) bool {
 		if slices.Contains(b.StaticSetMembers(), target) {
 			return true
 		}
+		// The members of a large directory are spread over subsets
+		// listed in "mergeSets".
+		if slices.Contains(b.StaticSetMergeSets(), target) {
+			return true
+		}
 	}
 	return false
 }
